@@ -17,7 +17,8 @@ structure All where
   c13 : C13.St := {}
 
 def stepLine (st : All) (line : String) : All × String :=
-  let toks := (line.trimAscii.toString.splitOn " ").filter (· ≠ "")
+  -- everything from a "#" token on is harness-only annotation
+  let toks := ((line.trimAscii.toString.splitOn " ").filter (· ≠ "")).takeWhile (· ≠ "#")
   match toks with
   | "C12" :: rest => let (s, o) := C12.step st.c12 rest; ({ st with c12 := s }, o)
   | "C09" :: rest => let (s, o) := C09.step st.c09 rest; ({ st with c09 := s }, o)
